@@ -243,7 +243,7 @@ def run_check(prop, tier, repo, seed, jobs, t0):
     V = get_verifier(repo)
     timeout_ms = 15000 if tier == 'quick' else 60000
     keys = [k for k, c in V.reg.contracts.items() if prop in c.props and not c.abstract]
-    lemma_keys = [('lemma', n) for n in sorted(V.reg.lemmas)]
+    lemma_keys = [('lemma', n) for n in sorted(V.reg.lemmas) if n not in V.reg.axioms]
     jobs_list = [(repo, k, timeout_ms, prop in propcfg.TERMINATION_PROPS, seed) for k in keys + lemma_keys]
     if not keys and cfg.get('needs_contracts', True):
         print('no contracts carry property %s' % prop)
